@@ -8,14 +8,16 @@ teams outside target, ...) only in the middle end, which it never reaches when t
 front end reported an error anywhere in the file, and never with -fsyntax-only:
 
   pass A  -fsyntax-only          parse/resolve errors (collapse, clauses, syntax)
-  pass B  -c -O0 (no link)       nesting errors, on the routines that passed A,
+  pass B  -S -O0 (no assembler)     nesting errors, on the routines that passed A,
                                  repeated without the failing routines until the
                                  remaining file compiles cleanly.
 
-Every routine for which a batch pass reported an error is re-compiled ALONE and
-only the stand-alone diagnostics are used for the verdict, so one routine can
-neither contaminate nor mask another.  Warnings and "sorry, unimplemented" (a
-limitation of this compiler, not of the code) are never errors.
+Batch diagnostics are attributed to routines through line ranges and turned
+into signatures; one routine per distinct signature is re-compiled ALONE and
+must give the same signatures, otherwise every failing routine of the batch is
+re-compiled alone and only the stand-alone diagnostics are used.  So one routine
+can neither contaminate nor mask another.  Warnings and "sorry, unimplemented"
+(a limitation of this compiler, not of the code) are never errors.
 """
 import os
 import re
@@ -30,13 +32,18 @@ _KIND = re.compile(r"^(Fatal Error|Error|Warning|sorry, unimplemented|"
                    r"internal compiler error|note):\s*(.*)$")
 
 
+_UNSUPPORTED = re.compile(r"not (yet )?supported|not (yet )?implemented|"
+                          r"unimplemented", re.IGNORECASE)
+
+
 class CompilerHarnessError(Exception):
     """gfortran could not be run or its output could not be understood."""
 
 
 def _run(args, cwd):
     try:
-        proc = subprocess.run([GFORTRAN] + FLAGS + args, cwd=cwd,
+        env = dict(os.environ, TMPDIR=cwd, LC_ALL="C", LANG="C")
+        proc = subprocess.run([GFORTRAN] + FLAGS + args, cwd=cwd, env=env,
                               capture_output=True, text=True, timeout=600,
                               check=False)
     except (OSError, subprocess.TimeoutExpired) as err:
@@ -61,7 +68,12 @@ def parse_diagnostics(stderr):
             raw = rest
         kind = _KIND.match(raw.strip())
         if kind:
-            out.append((line_no, kind.group(1), kind.group(2).strip()))
+            what, msg = kind.group(1), kind.group(2).strip()
+            if what == "Error" and _UNSUPPORTED.search(msg):
+                # e.g. "OpenACC region inside of OpenACC routine, nested
+                # parallelism not supported yet": a limit of this compiler
+                what = "sorry, unimplemented"
+            out.append((line_no, what, msg))
             continue
         if raw.startswith("compilation terminated") or \
                 raw.startswith("f951:") or "In function" in raw or \
@@ -85,7 +97,9 @@ def slug(message):
     positions removed)."""
     low = message.lower()
     low = re.sub(r"at \(\d+\)", "", low)
-    low = re.sub(r"['‘’`\"][^'‘’`\"]*['‘’`\"]", "X", low)
+    low = re.sub(r"['‘’`\"]([^'‘’`\"]*)['‘’`\"]",
+                 lambda m: m.group(1) if re.fullmatch(r"[a-z ]+", m.group(1))
+                 else "X", low)
     low = re.sub(r"\d+", "N", low)
     words = re.findall(r"[a-z$!]+|X|N", low)
     return "-".join(words)[:70].strip("-")
@@ -94,8 +108,10 @@ def slug(message):
 def _compile_file(path, mode, cwd):
     if mode == "A":
         return _run(["-fsyntax-only", os.path.basename(path)], cwd)
-    obj = os.path.basename(path) + ".o"
-    res = _run(["-O0", "-c", "-o", obj, os.path.basename(path)], cwd)
+    # -S: the whole compiler proper runs (front end, OpenMP/OpenACC lowering
+    # and expansion, code generation); only the assembler is skipped.
+    obj = os.path.basename(path) + ".s"
+    res = _run(["-O0", "-S", "-o", obj, os.path.basename(path)], cwd)
     try:
         os.remove(os.path.join(cwd, obj))
     except OSError:
@@ -134,10 +150,18 @@ def compile_alone(text, workdir, tag):
     return result
 
 
-def compile_batch(texts, workdir, tag):
+def compile_batch(texts, workdir, tag, sig_of=None):
     """texts: list of routine sources (already uniquely named).
-    Returns list (same order) of {"errors": [...], "unsupported": [...]}.
-    Also returns the number of gfortran invocations."""
+    Returns (list (same order) of {"errors": [(line-in-routine, pass, msg)],
+    "unsupported": [...]}, number of gfortran runs).
+
+    Batch diagnostics are attributed to routines through line ranges.  Before
+    they are trusted, ONE routine per distinct diagnostic signature
+    (``sig_of(index, errors) -> set``) is re-compiled alone; if any stand-alone
+    result differs from what the batch attributed to that routine, every failing
+    routine of the batch is re-compiled alone and only those results are used.
+    Failing routines are removed and the pass repeated until the remaining file
+    compiles without error, so no error can be masked by another one."""
     results = [None] * len(texts)
     runs = 0
     alive = list(range(len(texts)))
@@ -159,34 +183,58 @@ def compile_batch(texts, workdir, tag):
             runs += 1
             os.remove(path)
             diags = parse_diagnostics(err)
-            bad = set()
-            for lno, kind, _msg in diags:
+            bad = {}
+            for lno, kind, msg in diags:
                 if kind not in ("Error", "Fatal Error",
                                 "internal compiler error",
                                 "sorry, unimplemented"):
                     continue
-                hit = [i for lo, hi, i in ranges
+                hit = [(lo, i) for lo, hi, i in ranges
                        if lno is not None and lo <= lno <= hi]
                 if not hit:
                     raise CompilerHarnessError(
                         f"diagnostic without attributable line:\n{err[:2000]}")
-                bad.add(hit[0])
+                low, idx = hit[0]
+                rec = bad.setdefault(idx, {"errors": [], "unsupported": []})
+                if kind == "sorry, unimplemented":
+                    rec["unsupported"].append(msg)
+                else:
+                    rec["errors"].append((lno - low + 1, mode, msg))
             if code != 0 and not bad:
                 raise CompilerHarnessError(
                     f"gfortran failed (rc={code}) without attributable "
                     f"diagnostics:\n{err[:2000]}")
             if not bad:
                 break
+            # ---- confirm one representative per signature stand-alone ----
+            confirmed = set()
+            trusted = True
             for idx in sorted(bad):
-                results[idx] = compile_alone(texts[idx], workdir,
-                                             f"{tag}_{idx}")
+                sigs = frozenset(sig_of(idx, bad[idx]["errors"])) if sig_of \
+                    else None
+                if sigs is not None and sigs and sigs <= confirmed:
+                    continue
+                alone = compile_alone(texts[idx], workdir, f"{tag}_{idx}")
                 runs += 2
+                same = (sig_of is not None and
+                        frozenset(sig_of(idx, alone["errors"])) == sigs and
+                        bool(alone["unsupported"]) ==
+                        bool(bad[idx]["unsupported"]))
+                bad[idx] = alone
+                if sigs is None:
+                    continue
+                if not same:
+                    trusted = False
+                    break
+                confirmed |= sigs
+            if not trusted:
+                for idx in sorted(bad):
+                    bad[idx] = compile_alone(texts[idx], workdir,
+                                             f"{tag}_{idx}")
+                    runs += 2
+            for idx, rec in bad.items():
+                results[idx] = rec
             alive = [i for i in alive if i not in bad]
-            if mode == "A":
-                # one more A pass is not needed: front-end errors are reported
-                # for every program unit of the file.  Re-run anyway so that
-                # the set that goes on to pass B is known to be clean.
-                continue
     for idx in alive:
         results[idx] = {"errors": [], "unsupported": []}
     return results, runs
